@@ -266,6 +266,49 @@ def search(ctx, deep):
                 found += 1
                 ctx.fail_input(f'{fam}.cumulative_distribution', {'theta': th, 'u': us.tolist(), 'v': 0.5}, d.tolist(),
                                '0 <= C(u, 1/2) <= u', f'{fam}.cumulative_distribution:frechet-near-lower-boundary')
+    # positive arguments far below 1e-9 are still arguments, not zero: Clayton and Gumbel evaluate C(u,1) = u to 1e-9
+    # relative down to the smallest normal numbers (Frank's -log(1+x)/theta cannot: absolute error eps/|theta|)
+    for fam in ('clayton', 'gumbel'):
+        for th in B.theta_all(fam):
+            us = np.array([u for u in (5e-13, 1e-15, 1e-100, 1e-300) if not (fam == 'clayton' and th * -math.log10(u) > 290)])
+            if not len(us):
+                continue
+            c = B.make(fam, th)
+            checked += 1
+            with np.errstate(all='ignore'):
+                a = np.asarray(c.cumulative_distribution(np.column_stack([us, np.ones_like(us)])), dtype=float)
+                b = np.asarray(c.cumulative_distribution(np.column_stack([np.ones_like(us), us])), dtype=float)
+            for name, arr in (('C(u,1)', a), ('C(1,u)', b)):
+                if not np.all(np.abs(arr - us) <= 1e-9 * us):
+                    found += 1
+                    ctx.fail_input(f'{fam}.cumulative_distribution', {'theta': th, 'u': us.tolist(), 'identity': name}, arr.tolist(),
+                                   'uniform margins hold for every positive u: C(u,1) = C(1,u) = u to 1e-9 relative',
+                                   f'{fam}.cumulative_distribution:margin-tiny-positive-argument')
+                    break
+    # batch size: a long batch (longer than any internal block, lengths just above powers of two, with runs of boundary
+    # rows inside it) gives row i the value the same row gets in a short batch
+    for fam in B.FAMS:
+        th = B.theta_grid(fam)[len(B.theta_grid(fam)) // 2] if fam != 'gumbel' else 2.5
+        c = B.make(fam, th)
+        for n in (257, 1025, 4097, 5000):
+            rs = np.random.RandomState(n)
+            X = rs.uniform(1e-4, 1 - 1e-4, size=(n, 2))
+            k = n // 3
+            X[:256, 1] = 0.0            # an aligned run of (u, 0) rows ...
+            X[256:256 + min(k, 300), 1] = 1.0   # ... followed by (u, 1) rows
+            X[-1] = [0.37, 0.81]        # a recognisable last row
+            checked += 1
+            with np.errstate(all='ignore'):
+                whole = np.asarray(c.cumulative_distribution(X.copy()), dtype=float)
+                pieces = np.concatenate([np.asarray(c.cumulative_distribution(X[i:i + 61].copy()), dtype=float) for i in range(0, n, 61)])
+            if whole.shape != (n,) or not np.array_equal(whole, pieces, equal_nan=True):
+                i = int(np.argmax(~np.isclose(whole, pieces, rtol=0, atol=0, equal_nan=True))) if whole.shape == pieces.shape else -1
+                found += 1
+                ctx.fail_input(f'{fam}.cumulative_distribution', {'theta': th, 'n': n, 'generator': 'RandomState(n).uniform + 256 rows (u,0) + rows (u,1)',
+                                                                 'row': i, 'row_values': X[i].tolist() if i >= 0 else None},
+                               {'whole_batch': float(whole[i]) if i >= 0 else list(whole.shape), 'in_pieces_of_61': float(pieces[i]) if i >= 0 else list(pieces.shape)},
+                               'the value of row i does not depend on the batch it is evaluated in', f'{fam}.cumulative_distribution:batch-size-dependent')
+                break
     # purity: a call leaves the caller's array as it was, returns memory of its own, and an earlier result does not
     # change when the same or another object of the family is called again on an equally shaped batch
     for fam in B.FAMS:
